@@ -68,7 +68,7 @@ def build(decls, stmts, xdp_min=None):
             else:
                 e.assemble()
                 ops = e.opcodes
-        except (AssembleError, AssertionError, TypeError, ValueError, KeyError, AttributeError, struct.error, OverflowError) as ex:
+        except (AssembleError, AssertionError, TypeError, ValueError, KeyError, AttributeError, struct.error, OverflowError, ZeroDivisionError) as ex:
             res.error = f"{type(ex).__name__}: {ex}"
             return res
         fds = {fd: k for k, fd in enumerate(kernel.maps)}
@@ -124,6 +124,8 @@ def bcond(e, c):
     if t == "not":
         return ~bcond(e, c[1])
     if t == "bit":
+        return bexpr(e, c[1]) != 0
+    if t == "truth":               # a bare expression used as the condition of a with-block
         return bexpr(e, c[1])
     return CMPS[t](bexpr(e, c[1]), bexpr(e, c[2]))
 
